@@ -6,6 +6,8 @@ package world
 
 import (
 	"bytes"
+	"runtime/debug"
+	"strings"
 	"container/heap"
 	"errors"
 	"fmt"
@@ -74,7 +76,7 @@ type World struct {
 	miners  []*Miner
 	wallets []*Wallet
 	lights  []*Light
-	renters []*Renter
+	contracts []*Contract
 
 	ledgers map[types.BlockID]*ref.Ledger
 	badLedger map[types.BlockID]bool
@@ -134,7 +136,7 @@ func Run(t *sim.Tape, profile, tier string) (res *sim.RunResult) {
 			if e, ok := r.(error); ok && errors.As(e, &he) {
 				w.harness = he.msg
 			} else {
-				w.harness = fmt.Sprintf("harness panic: %v", r)
+				w.harness = fmt.Sprintf("harness panic: %v @ %s", r, harnessSite(debug.Stack()))
 			}
 		}
 		res.TapeLen = t.Len()
@@ -751,7 +753,7 @@ func (w *World) act(i int) {
 			// the wallet built it against this very node: it must be valid
 			w.stats.Inc("workload.rejected." + pt.Kind)
 			w.log.Addf("t=%d wallet=%d ev=txn-reject kind=%s err=%q", w.now, wl.idx, pt.Kind, errClass(err))
-			w.workloadRejected(pt, err)
+			w.workloadRejected(n, pt, err)
 			break
 		}
 		w.stats.Inc("workload." + pt.Kind)
@@ -896,4 +898,26 @@ func (w *World) ownViolation() bool {
 		}
 	}
 	return false
+}
+
+// harnessSite extracts the harness frames nearest to a panic.
+func harnessSite(stack []byte) string {
+	var out []string
+	lines := strings.Split(string(stack), "\n")
+	for i, line := range lines {
+		if strings.HasPrefix(line, "verif/") && i+1 < len(lines) {
+			loc := strings.TrimSpace(lines[i+1])
+			if j := strings.LastIndex(loc, "/"); j >= 0 {
+				loc = loc[j+1:]
+			}
+			if j := strings.Index(loc, " "); j >= 0 {
+				loc = loc[:j]
+			}
+			out = append(out, loc)
+			if len(out) == 4 {
+				break
+			}
+		}
+	}
+	return strings.Join(out, " < ")
 }
